@@ -103,6 +103,12 @@ type Exec struct {
 	Errors []ExecError
 	// Notes collects simulator-level protocol complaints (bad representations …).
 	Notes []string
+	// Missing, when set, marks (object, response key) pairs whose value is unavailable
+	// (C07: delivered only by failed or skipped subgraph requests): the field completes
+	// as null and propagates like any other null.
+	Missing func(obj Obj, key string) bool
+	// MissingHits counts how often Missing fired.
+	MissingHits int
 }
 
 // Run executes the named (or only) operation and returns data (nil when null propagated to
@@ -248,6 +254,14 @@ func (e *Exec) selectionSet(obj Obj, def *ast.Definition, sets []ast.SelectionSe
 		fpath := appendPath(path, g.key)
 		if f.Name == "__typename" {
 			out.Set(g.key, def.Name)
+			continue
+		}
+		if e.Missing != nil && e.Missing(obj, g.key) {
+			e.MissingHits++
+			if fdm := def.Fields.ForName(f.Name); fdm != nil && fdm.Type.NonNull {
+				return nil, false
+			}
+			out.Set(g.key, nil)
 			continue
 		}
 		fd := def.Fields.ForName(f.Name)
